@@ -659,9 +659,13 @@ impl Node {
         if let Some(conn) = self.connections.get(remote_node) {
             tracing::trace!("Found connection, sending to rex");
             let mut conn_guard = conn.lock().await;
-            conn_guard
+            if let Err(e) = conn_guard
                 .send_to_name(reply_to_pid, Atom::new("rex"), call_request)
-                .await?;
+                .await
+            {
+                self.pending_rpcs.remove(&pid_str);
+                return Err(e.into());
+            }
             tracing::trace!("Message sent to rex");
         } else {
             tracing::error!("No connection found for node: {}", remote_node);
